@@ -34,7 +34,7 @@ def main():
         for chk in checks:
             env2 = dict(env, VERIF_REPO=tmp, VERIF_EVIDENCE_DIR=os.path.join(tmp, "evidence"),
                         VERIF_REPLAY_DIR=os.path.join(tmp, "replays"))
-            r = subprocess.run(["/verif/check", chk, "--tier", os.environ.get("MUT_TIER", "quick")],
+            r = subprocess.run([os.path.join(os.path.dirname(os.path.dirname(os.path.abspath(__file__))), "check"), chk, "--tier", os.environ.get("MUT_TIER", "quick")],
                                env=env2, capture_output=True, text=True)
             lines = r.stdout.strip().splitlines()
             viol = [l for l in lines if l.startswith("VIOLATION")]
